@@ -56,7 +56,8 @@ def _pure_lvalue(n):
                 return True
             n = c[0]
             continue
-        if k == 'CXXMemberCallExpr' and (n.get('callee') or '').endswith(' const') and len(n.get('c') or ()) == 1:
+        if k == 'CXXMemberCallExpr' and len(n.get('c') or ()) == 1 and ((n.get('callee') or '').endswith(' const') or
+                                                                       ((n.get('callee_name') or '').startswith('std::') and (n.get('callee_name') or '').rsplit('::', 1)[-1] in ('back', 'front'))):
             me = n['c'][0]
             n = (me.get('c') or [None])[0] if me.get('k') == 'MemberExpr' else None
             if n is None:
@@ -137,17 +138,25 @@ def _index_loop(n):
     var = {'k': 'VarDecl', 'loc': d['loc'], 'name': d['name'] + '$elem', 'static': False, 't': elems[0].get('t'), 'synthetic': 'index-loop'}
     ids = {id(e) for e in elems}
     nb = _replace(body, lambda x: _elem_ref(var, x) if id(x) in ids else None)
-    return {'k': 'CXXForRangeStmt', 'loc': n.get('loc'), 'end': n.get('end'), 'id': n.get('id'), 'normalised_from': 'index loop', 'slots': {'var': var, 'range': cont, 'body': nb}}
+    return {'k': 'CXXForRangeStmt', 'loc': n.get('loc'), 'end': n.get('end'), 'id': n.get('id'), 'normalised_from': 'index loop', 'alias_ids': [init.get('id')], 'slots': {'var': var, 'range': cont, 'body': nb}}
 
 
 def _iter_loop(n):
     sl = n.get('slots') or {}
     init, cond, inc, body = sl.get('init'), sl.get('cond'), sl.get('inc'), sl.get('body')
-    if not (init and cond and inc and body) or init.get('k') != 'DeclStmt' or len(init.get('c') or ()) != 1:
+    if not (init and cond and inc and body) or init.get('k') != 'DeclStmt' or len(init.get('c') or ()) not in (1, 2):
         return None
     d = init['c'][0]
     if d.get('k') != 'VarDecl' or not isinstance(d.get('init'), dict):
         return None
+    endvar = None
+    if len(init['c']) == 2:
+        # for (auto it = C.begin(), e = C.end(); it != e; ++it): `e` is only a name for C.end()
+        endvar = init['c'][1]
+        if endvar.get('k') != 'VarDecl' or not isinstance(endvar.get('init'), dict):
+            return None
+        if sum(1 for x in _walk(n) if _is_ref(x, endvar['loc'])) != 1:
+            return None
     it = d['loc']
     x0 = d['init']
     while x0.get('k') in ('CXXConstructExpr',) and len(x0.get('c') or ()) == 1:
@@ -167,6 +176,12 @@ def _iter_loop(n):
         a, b = b, a
     while isinstance(b, dict) and b.get('k') == 'CXXConstructExpr' and len(b.get('c') or ()) == 1:
         b = b['c'][0]
+    if endvar is not None:
+        if not _is_ref(b, endvar['loc']):
+            return None
+        b = endvar['init']
+        while isinstance(b, dict) and b.get('k') == 'CXXConstructExpr' and len(b.get('c') or ()) == 1:
+            b = b['c'][0]
     endc = _member_call(b, ('end', 'cend'))
     if not _is_ref(a, it) or endc is None or canon(endc, None) != cterm:
         return None
@@ -199,7 +214,7 @@ def _iter_loop(n):
             return y
         return None
     nb = _replace(body, fn)
-    return {'k': 'CXXForRangeStmt', 'loc': n.get('loc'), 'end': n.get('end'), 'id': n.get('id'), 'normalised_from': 'iterator loop', 'slots': {'var': var, 'range': cont, 'body': nb}}
+    return {'k': 'CXXForRangeStmt', 'loc': n.get('loc'), 'end': n.get('end'), 'id': n.get('id'), 'normalised_from': 'iterator loop', 'alias_ids': [init.get('id') if len(init['c']) == 1 else d['init'].get('id')], 'slots': {'var': var, 'range': cont, 'body': nb}}
 
 
 def _bloc(vloc, which):
@@ -272,15 +287,61 @@ def normalise(n):
 _INL = [0]
 
 
-def _param_subst(body, params, args):
+def _simple_arg(a):
+    """an argument that may be written wherever the parameter is used: a variable, a member chain, *x / &x of those, a literal."""
+    g = 0
+    while isinstance(a, dict) and g < 16:
+        g += 1
+        k = a.get('k')
+        if k in ('DeclRefExpr', 'CXXThisExpr', 'IntegerLiteral', 'CXXBoolLiteralExpr', 'CXXNullPtrLiteralExpr', 'FloatingLiteral', 'StringLiteral', 'CharacterLiteral'):
+            return True
+        if k == 'MemberExpr':
+            c = a.get('c') or []
+            if not c:
+                return True
+            a = c[0]
+        elif k == 'UnaryOperator' and a.get('op') in ('*', '&', '-'):
+            a = (a.get('c') or [None])[0]
+        elif k == 'CXXOperatorCallExpr' and a.get('op') in ('*', '->') and len(a.get('c') or ()) == 2:
+            a = a['c'][1]
+        elif k in ('CXXConstructExpr', 'ParenExpr', 'CXXFunctionalCastExpr', 'CXXStaticCastExpr') and len(a.get('c') or ()) == 1:
+            a = a['c'][0]
+        else:
+            return False
+    return False
+
+
+def _param_subst(body, params, args, decls=None):
     """copy of `body` with every reference to a parameter replaced by the corresponding argument expression; the locals of the copy get
-    locations of their own (two inlined copies of one helper must not share their locals)."""
+    locations of their own (two inlined copies of one helper must not share their locals).  With `decls` (a list), an argument that is not simple and
+    whose parameter is used more than once is evaluated once into a local of the copy (appended to decls) instead."""
     m = {}
-    for p, a in zip(params, args):
-        if p.get('loc'):
-            m[p['loc']] = a
     _INL[0] += 1
     k = _INL[0]
+    for i, (p, a) in enumerate(zip(params, args)):
+        if not p.get('loc'):
+            continue
+        nuse = sum(1 for x in _walk(body) if _is_ref(x, p['loc']))
+        if decls is not None and nuse > 1 and not _simple_arg(a):
+            nloc = _bloc(p['loc'], 500 + k * 10 + i)
+            v = {'k': 'VarDecl', 'loc': nloc, 'name': p.get('name') or ('arg%d' % i), 'static': False, 't': p.get('t'), 'init': a, 'synthetic': 'inlined parameter'}
+            decls.append({'k': 'DeclStmt', 'c': [v], 'loc': a.get('loc'), 'end': a.get('end')})
+            m[p['loc']] = {'k': 'DeclRefExpr', 'c': [], 'ref': v['name'], 'refk': 'Var', 'local': True, 'dloc': nloc, 'loc': a.get('loc'), 'end': a.get('end'), 't': a.get('t')}
+        else:
+            m[p['loc']] = a
+    # the node ids of the helper are ids of ANOTHER function: the copy has none (the CFG of the caller only knows the call)
+    def noid(n):
+        if not isinstance(n, dict):
+            return n
+        o = {kk: v for kk, v in n.items() if kk not in ('id', 'alias_ids')}
+        if o.get('c'):
+            o['c'] = [noid(c) for c in o['c']]
+        if isinstance(o.get('init'), dict):
+            o['init'] = noid(o['init'])
+        if o.get('slots'):
+            o['slots'] = {kk: (noid(v) if isinstance(v, dict) else v) for kk, v in o['slots'].items()}
+        return o
+    body = noid(body)
     locs = {}
     for x in _walk(body):
         if x.get('k') == 'VarDecl' and x.get('loc'):
@@ -326,6 +387,47 @@ def _walk_nolambda(n):
             if x.get('k') == 'LambdaExpr' and x is not n:
                 continue
             st.extend(kids(x))
+
+
+def _is_void_return(s):
+    return isinstance(s, dict) and s.get('k') == 'ReturnStmt' and not s.get('c')
+
+
+def _no_returns(body):
+    """the statements of a void helper with its early exits (`if (c) return;`, `if (c) { ..; return; }`, a final `return;`) rewritten as nesting
+    (`if (c) { .. } else { the rest }`), or None when a return sits anywhere else."""
+    def elim(stmts):
+        out = []
+        for i, s in enumerate(stmts):
+            if _is_void_return(s):
+                return out
+            sl = s.get('slots') or {}
+            if s.get('k') == 'IfStmt' and sl.get('else') is None and sl.get('then') is not None and any(_is_void_return(x) for x in _walk_nolambda(sl['then'])):
+                t = sl['then']
+                ts = list(t.get('c') or ()) if t.get('k') == 'CompoundStmt' else [t]
+                if not ts or not _is_void_return(ts[-1]) or any(x.get('k') == 'ReturnStmt' for y in ts[:-1] for x in _walk_nolambda(y)):
+                    return None
+                rest = elim(stmts[i + 1:])
+                if rest is None:
+                    return None
+                n = dict(s)
+                n['slots'] = dict(sl)
+                n['slots']['then'] = {'k': 'CompoundStmt', 'c': ts[:-1], 'loc': t.get('loc')}
+                n['slots']['else'] = {'k': 'CompoundStmt', 'c': rest, 'loc': s.get('loc')}
+                n['returns_eliminated'] = True
+                return out + [n]
+            if any(x.get('k') == 'ReturnStmt' for x in _walk_nolambda(s)):
+                return None
+            out.append(s)
+        return out
+    if body is None or body.get('k') != 'CompoundStmt':
+        return None
+    r = elim(list(body.get('c') or ()))
+    if r is None:
+        return None
+    b = dict(body)
+    b['c'] = r
+    return b
 
 
 def _single_return_expr(body):
@@ -422,9 +524,16 @@ def inline_helpers(functions, inventory, root):
         rets = _returns(body)
         if mode == 'stmt':
             if rets:
-                return None
+                body = _no_returns(body)
+                if body is None:
+                    return None
             count += 1
-            return [_param_subst(body, params, args)]
+            decls = []
+            blk = _param_subst(body, params, args, decls)
+            if decls:
+                blk = dict(blk)
+                blk['c'] = decls + list(blk.get('c') or ())
+            return [blk]
         if mode == 'tail':
             count += 1
             return [_param_subst(body, params, args)]
